@@ -36,6 +36,7 @@ open VaxisModel.Props.C01Display (FrameIn HState mkFrame stepH FrameInOk Ready)
 open VaxisModel.Props.C01Clip (FrameInOkC clipIn stepHC stepHC_eq clipIn_ok)
 open VaxisModel.Props.C12 (Linked EmuFrameOk clipIn_emuOk emuCaps startDisplay)
 open VaxisModel.Props.C12Caps VaxisModel.Props.C12Any
+open VaxisModel.Props.C12Resize (Seg)
 open VaxisModel.Lemmas.C06Bridge (Rel Common tokT runExact DecOk mapCell CellEq)
 open VaxisModel.Spec.Term (T TCell)
 
@@ -366,6 +367,49 @@ theorem rel_resizedP (dec : String → G) (hdec : DecOk dec) (rows cols : Nat) (
       intro j d t hd' ht'
       rw [rep _ _ _ _ hd', rep _ _ _ _ ht']
       rfl
+
+/-- The reference terminal re-started next to the emulator after a resize: every cell unknown, cursor
+    where `resize()` left it (the state of `rel_resizedP`). -/
+def termAfterResize (cols rows : Nat) (e : Emu) : T :=
+  { T.init rows cols with
+    primary := List.replicate rows (List.replicate cols TCell.poison)
+    row := e.cur.row.toNat
+    col := (if e.cur.col ≥ (cols : Int) then (cols : Int) - 1 else e.cur.col).toNat
+    pw := decide (e.cur.col ≥ (cols : Int))
+    cursorVisible := e.mode.dectcem
+    cursorShape := e.cur.shape.toNat }
+
+/-- **The reference-terminal clause after ANY history with resizes**: run any admissible history `pre`
+    (`C12Caps.runSegs`), let the host resize the emulator once more and re-start the reference terminal
+    next to it (`termAfterResize`); then for the frames of that last segment — rendered with the memory the
+    renderer has after `pre` (`MemEq (segsMem …) sm`) — the conclusion of `emu_and_term_show` holds: the
+    emulator shows the last (hence every) frame, `Spec.Term` is deterministic on the same tokens and accepts
+    the emulator's state. -/
+theorem emu_and_term_show_after_history (dec : String → G) (hdec : DecOk dec) (cw : String → Nat) (hsp : cw "20" = 1)
+    (hlp : LpOk dec) (rows cols : Nat) (s : HState) (e : Emu) (hl : LinkedP dec cw s e rows cols)
+    (pre : List Seg) (hpre : ∀ sg ∈ pre, SegOkU caps dec cw sg)
+    (w h : Nat) (hw1 : 1 ≤ w) (hw2 : w ≤ 65535) (hh1 : 1 ≤ h) (hh2 : h ≤ 65535)
+    (a : FrameIn) (rest : List FrameIn) (ha : a.refresh = true)
+    (hok : ∀ fi ∈ a :: rest, (FrameInOkC cw caps h w fi ∧ EmuFrameOk dec cw fi) ∧ UlOk caps fi)
+    (fi : FrameIn) (hlast : (a :: rest).getLast? = some fi) :
+    ∃ (e0 e1 e' : Emu) (sm : HState) (t' : T),
+      runSegs caps dec cw s e pre = .ok e0 ∧ runOps e0 [.resize w h] = .ok e1 ∧
+      MemEq (segsMem caps cw s pre) sm ∧
+      runFramesCK caps dec cw (afterResizeP w h e1 sm) e1 (a :: rest) = .ok e' ∧ ShowsCK caps dec cw fi e' ∧
+      runExact (termAfterResize w h e1)
+        ((allToks caps cw (afterResizeP w h e1 sm) (a :: rest)).filterMap (tokT dec cw)) = some t' ∧
+      Spec.Term.gridAccepts t'.primary (e'.active.map Model.EmuAbs.absRow) = true ∧
+      (t'.row : Int) = e'.cur.row ∧ t'.pw = decide (e'.cur.col ≥ (w : Int)) ∧
+      t'.pen = Model.EmuAbs.absStyle e'.cur.st ∧ t'.link = e'.cur.st.link ∧
+      t'.cursorVisible = e'.mode.dectcem ∧ (t'.cursorShape : Int) = e'.cur.shape := by
+  obtain ⟨e0, sm, hr0, hm, hl0⟩ := history_relinks (caps := caps) dec cw hsp hdec.space hdec.empty hlp pre rows cols s s e
+    ⟨rfl, rfl, rfl⟩ hl hpre
+  obtain ⟨e1, hr1, hl1, _⟩ := resize_linked_any dec cw _ _ sm e0 hl0 w h hw1 hw2 hh1 hh2
+  have hrel := rel_resizedP dec hdec h w e1 hl1.sim.inv hl1.sim.dim
+  obtain ⟨e', t', d, hr, hsh, hrt, _, _, _, _, g1, g2, g3, g4, g5, g6, g7⟩ :=
+    emu_and_term_show (caps := caps) dec cw hsp hdec.space hdec.empty hlp h w (afterResizeP w h e1 sm) e1 hl1
+      (termAfterResize w h e1) hrel a rest ha hok fi hlast
+  exact ⟨e0, e1, e', sm, t', hr0, hr1, hm, hr, hsh, hrt, g1, g2, g3, g4, g5, g6, g7⟩
 
 /-! ### the executable copies used by the driver are the bridge's definitions -/
 
